@@ -199,7 +199,14 @@ def template_jobs(ctx, n):
                 prog += [["m", "MatchFirst", [f, "y"]], ["first", "Opt", "m"]]
             else:
                 prog += [["m", "MatchFirst", [f, "y"]], ["nm", "~", "m"], ["first", "Opt", "nm"]]
-            prog.append(["root", "+", "first", f])
+            # the second visit is the Forward itself or, when there is one, the message-rewriting wrapper again
+            second = f
+            if r.random() < 0.5:
+                second = "g" if k < 0.4 else "m"
+                if r.random() < 0.5:   # the first visit fails late inside an optional prefix:  Opt(w + '!') + w
+                    prog = [st for st in prog if st[0] != "first"]
+                    prog += [["bang", "Literal", "!"], ["pre", "+", second, "bang"], ["first", "Opt", "pre"]]
+            prog.append(["root", "+", "first", second])
             root = "root"
         jobs.append(dict(prog=prog, root=root, inputs=["a 1", "a 1 c", "a q", "q", "a x 1", "a x 1 c", "a x q", "a 1 1 c", "a",
                                                        "a x", "a 1 a 1 ;", "y a"]))
